@@ -55,9 +55,14 @@ fn entry_bytes(e: &Value) -> Option<Vec<u8>> {
 /// pick a world of valid sources: (files, main program path)
 const NON_ASCII_PROGRAM: &str = "(import (scheme base) (scheme write))\n; комментарий с (скобкой\n(define grüße \"grüße, λ und 中文 (ok)\")\n(display grüße)\n(newline)\n(define (länge l) (if (pair? l) (+ 1 (länge (cdr l))) 0)) ; λ-Kalkül\n(display (länge '(α β γ)))\n(display #\\λ)\n(newline)\n";
 
+/// a valid program that leans on the expander: macros that define macros, nested uses,
+/// macros expanding to definitions and assignments inside procedures
+const MACRO_PROGRAM: &str = "(import (scheme base) (scheme write))\n(define-syntax def-getter\n  (syntax-rules ()\n    ((def-getter name value)\n     (define-syntax name (syntax-rules () ((name) value))))))\n(def-getter seven 7)\n(display (seven))\n(define-syntax swap!\n  (syntax-rules ()\n    ((swap! a b) ((lambda (tmp) (set! a b) (set! b tmp)) a))))\n(define p 1)\n(define q 2)\n(swap! p q)\n(display (list p q))\n(define-syntax my-or\n  (syntax-rules ()\n    ((my-or) #f)\n    ((my-or e) e)\n    ((my-or e r ...) ((lambda (t) (if t t (my-or r ...))) e))))\n(display (my-or #f #f 3))\n(define-syntax twice (syntax-rules () ((twice e) (+ e e))))\n(define (f x) (twice (twice x)))\n(display (f 4))\n(define-syntax def-two\n  (syntax-rules ()\n    ((def-two a b v) ((lambda () (define a v) (define b v) (+ a b))))))\n(display (def-two x y 5))\n(newline)\n";
+
 fn pick_world(rng: &mut Rng) -> (Vec<(String, Vec<u8>)>, String) {
-    let c = rng.upto(11);
+    let c = rng.upto(12);
     match c {
+        11 => (vec![("main.scm".into(), MACRO_PROGRAM.as_bytes().to_vec())], "macro-program".into()),
         10 => (vec![("main.scm".into(), NON_ASCII_PROGRAM.as_bytes().to_vec())], "non-ascii-program".into()),
         0 | 1 | 2 => {
             let p = *rng.pick(REPO_PROGRAMS);
@@ -342,7 +347,7 @@ fn execute_d(case: Value) -> RunResult {
                         let at = stderr.split("panicked at ").nth(1).and_then(|x| x.split(':').next()).unwrap_or("?").to_string();
                         let msg = stderr.split("panicked at ").nth(1).and_then(|x| x.lines().nth(1)).unwrap_or("").to_string();
                         res.violation = Some(Violation {
-                            signature: format!("C07/binary-panics/{}|{}", at, crate::hashseed::message_class(&msg)),
+                            signature: format!("C07/binary-panics/{}|{}", crate::hashseed::stable_path(&at), crate::hashseed::message_class(&msg)),
                             detail: json!({"status": c.code, "stderr": stderr.lines().skip(1).take(2).collect::<Vec<_>>(), "origin": case["origin"], "faults": case["faults"]}),
                         });
                     }
